@@ -18,8 +18,9 @@ RULE = ("altitudes -500..20000 m (uniform, plus 0, 11000 +- {0,1e-6,1}, 20000, -
         "CAS=EAS=TAS at sea level, TAS>=EAS and CAS>=EAS for h>=0, distance symmetric and within 0.5 m + 1e-9 d of haversine, bearing in [0,360); "
         "array results equal element-wise scalar results. non-trivial = altitude within 1 m of 0/11000/20000 or above the tropopause, speed > 250 m/s or < 5 m/s, "
         "antipodal/polar/antimeridian coordinate pairs"
-        ' Also: whole-number arguments as Python ints, int16/int32/int64/uint16 arrays, an altitude array updated in place between two calls, a scalar speed with an altitude array and a speed array with a scalar altitude, single-precision (numpy.float32) calls at the same altitudes made earlier in the process, altitudes on the 25 m grid.')
-ASSUMPTIONS = ["ISA reference ref/isa.py (g0/(R L) = 5.25588) checked at import against tabulated ICAO values",
+        ' Also: whole-number arguments as Python ints, int16/int32/int64/uint16 arrays, an altitude array updated in place between two calls, a scalar speed with an altitude array and a speed array with a scalar altitude, single-precision (numpy.float32) calls at the same altitudes made earlier in the process, altitudes on the 25 m grid, 2-D altitude arrays in C / Fortran order and as transposed or strided views, coordinate arrays of float / signed / unsigned integer dtypes in both longitude conventions (leg geo_arrays).')
+ASSUMPTIONS = ["numpy evaluates trigonometric functions of float32 and of 16-bit integer arrays in single precision; distance/bearing on such arrays are judged at that precision (5 km / 1e-3 deg), on 32/64-bit integer and float64 arrays at 0.5 m / 1e-9 deg",
+               "ISA reference ref/isa.py (g0/(R L) = 5.25588) checked at import against tabulated ICAO values",
                "compressible round trips judged at 1e-6 relative: the impact-pressure formula cancels at low speed (measured worst 7e-9)"]
 
 ALT = st.one_of(gen.ufloat(-500, 20000), gen.ufloat(-500, 20000), gen.ufloat(-500, 20000), gen.uint(-20, 800).map(lambda k: k * 25.0),
@@ -185,6 +186,21 @@ def chk_arrays(c, note):
         sc = [float(getattr(aero, f)(h)) for h in c["h"]]
         if np.shape(arr) != (len(sc),) or any(rel(float(a), b) > 1e-12 for a, b in zip(arr, sc)):
             return "%s on array %r = %r but scalars give %r" % (f, c["h"], arr, sc)
+    # arrays of more than one dimension in every memory layout: C order, Fortran order, a transposed view, a strided view
+    hs = (c["h"] * 4)[:max(4, len(c["h"]) // 2 * 2 + 2)]
+    hs = hs[:len(hs) // 2 * 2]
+    base2 = np.array(hs, dtype=float).reshape(2, -1)
+    wide = np.array([hs, hs[::-1], hs], dtype=float)
+    for lname, H2 in (("C-ordered 2-D", base2), ("Fortran-ordered 2-D", np.asfortranarray(base2)), ("transposed view", base2.T), ("strided view", wide[::2, ::1]), ("column view", wide[:, 1:])):
+        for f in ("pressure", "density", "temperature", "vsound"):
+            got = call(getattr(aero, f), H2)
+            exp = np.array([[float(getattr(aero, f)(float(x))) for x in row] for row in H2.tolist()])
+            if got[0] != "ok" or np.shape(got[1]) != exp.shape or np.any(np.abs(np.asarray(got[1], dtype=float) - exp) > 1e-12 * np.abs(exp)):
+                return "%s on a %s array %r -> %r, element-wise scalars give %r" % (f, lname, H2.tolist(), got, exp.tolist())
+        got = call(aero.tas2eas, 200.0, H2)
+        exp = np.array([[float(aero.tas2eas(200.0, float(x))) for x in row] for row in H2.tolist()])
+        if got[0] != "ok" or np.shape(got[1]) != exp.shape or np.any(np.abs(np.asarray(got[1], dtype=float) - exp) > 1e-12 * np.abs(exp)):
+            return "tas2eas(200.0, %s array %r) -> %r, element-wise scalars give %r" % (lname, H2.tolist(), got, exp.tolist())
     # integer-valued arrays of any integer dtype, and an altitude array the caller updates in place between two calls
     Vi, Hi = np.round(V).astype(int).clip(1, 450), np.round(H).astype(int)
     for f in ("tas2cas", "cas2tas", "tas2eas", "eas2tas", "tas2mach"):
@@ -247,7 +263,52 @@ def chk_geo(c, note):
     return None
 
 
+# ------------------------------------------------------------------ distance / bearing on coordinate arrays
+@st.composite
+def s_geo_arrays(draw):
+    n = draw(st.integers(1, 5))
+    pts = [[draw(gen.uint(-90, 90)), draw(gen.uint(-180, 179)), draw(gen.uint(-90, 90)), draw(gen.uint(-180, 179))] for _ in range(n)]
+    return {"pts": pts, "lonconv": draw(st.sampled_from(["signed", "0-359"])), "dtype": draw(st.sampled_from(["float64", "int16", "int32", "int64", "uint16-lon", "float32"]))}
+
+
+def chk_geo_arrays(c, note):
+    """whole-degree coordinates held in arrays of the usual dtypes, longitudes in the -180..179 or in the 0..359 convention: the array call equals the scalar calls"""
+    P = np.array(c["pts"], dtype=float)
+    if c["lonconv"] == "0-359" or c["dtype"] == "uint16-lon":
+        P[:, 1] %= 360
+        P[:, 3] %= 360
+    latdt = {"float64": float, "int16": np.int16, "int32": np.int32, "int64": np.int64, "uint16-lon": np.int16, "float32": np.float32}[c["dtype"]]
+    londt = np.uint16 if c["dtype"] == "uint16-lon" else latdt
+    args = (P[:, 0].astype(latdt), P[:, 1].astype(londt), P[:, 2].astype(latdt), P[:, 3].astype(londt))
+    # numpy computes the trigonometric functions of float32 - and of 16-bit integer - arrays in single precision: judged at that precision
+    single = c["dtype"] in ("float32", "int16", "uint16-lon")
+    tolrel = 1e-5 if single else 1e-9
+    # (the law of cosines resolves arccos near 1 to sqrt(2 eps): 0.1 m in double, 2-3 km in single precision)
+    for f, cmpf in (("distance", lambda a, b: abs(a - b) <= 0.5 + tolrel * abs(b) + (5000.0 if single else 0.0)),
+                    ("bearing", lambda a, b: min((a - b) % 360, (b - a) % 360) <= (1e-3 if single else 1e-9))):
+        got = call(getattr(aero, f), *args)
+        exp = [float(getattr(aero, f)(*[float(v) for v in row])) for row in P.tolist()]
+        bad = got[0] != "ok" or np.shape(got[1]) != (len(exp),)
+        if not bad:
+            for g, e, row in zip(np.asarray(got[1], dtype=float).tolist(), exp, P.tolist()):
+                if not fin(g):
+                    bad = True
+                elif f == "bearing" and cpr.haversine_m(*row) < (20000.0 if single else 1.0):
+                    continue    # the direction between identical points is not defined
+                elif f == "bearing" and (abs(row[0]) == 90 or abs(row[2]) == 90 or cpr.haversine_m(row[0], row[1], -row[2], row[3] + 180) < 1.0):
+                    continue    # nor from / to a pole, nor between antipodes
+                elif not cmpf(g, e):
+                    bad = True
+        if bad:
+            return "%s on %s arrays (lat %r, lon %r, lat %r, lon %r) -> %r, scalar calls with the same values give %r" % (
+                f, c["dtype"], P[:, 0].tolist(), P[:, 1].tolist(), P[:, 2].tolist(), P[:, 3].tolist(), got, exp)
+    note.cls("geo-arrays-" + c["dtype"], "lon-" + c["lonconv"])
+    note.nt(len(c["pts"]) > 1)
+    return None
+
+
 LEGS = [
+    Leg("geo_arrays", chk_geo_arrays, strategy=s_geo_arrays, quick=4000, thorough=150000, doc="distance / bearing on coordinate arrays (float, signed and unsigned integer dtypes, both longitude conventions) == scalar calls"),
     Leg("isa", chk_isa, strategy=s_isa, quick=8000, thorough=400000, doc="p, rho, T, a vs independent ISA; continuity at 11 km"),
     Leg("isa_table", chk_table, enum=enum_table, exhaustive=True, doc="9 tabulated ISA rows"),
     Leg("conversions", chk_conv, strategy=s_conv, quick=16000, thorough=800000, doc="inverse pairs, monotonicity, sea-level identities, orderings"),
